@@ -34,16 +34,17 @@ def collect(wt, sid, prop):
     demo_fail=[f for f in fails if any(n in f for n in names)]
     other_fail=[f for f in fails if f not in demo_fail]
     with_change_demo_fails= len(demo_fail)>0
-    sh('git stash push -- $(git diff --name-only)', cwd=wt, check=True)
+    # (not git stash: the stash stack is shared by all worktrees of a repository)
+    sh(f'git apply -R {out}/patch.diff', cwd=wt, check=True)
     try:
         clean=sh(f"go test -vet=off -count=1 {tags} -run '{runpat}' {' '.join(pk)} 2>&1", cwd=wt).stdout
     finally:
-        sh('git stash pop', cwd=wt, check=True)
+        sh(f'git apply {out}/patch.diff', cwd=wt, check=True)
     clean_pass='--- FAIL' not in clean and 'FAIL' not in [l.split('\t')[0] for l in clean.split('\n')]
     meta=dict(seed=sid, breaks_property=prop, demo_tests=names, demo_files=untracked, build_tags=tags,
               verified=dict(suite_passes_with_change=(len(other_fail)==0), suite_other_failures=other_fail,
                             demo_fails_with_change=with_change_demo_fails, demo_passes_without_change=clean_pass),
-              ran=[f"go test -vet=off -count=1 {tags} ./...  (in the worktree, change applied)", f"git stash; go test -run '{runpat}' {' '.join(pk)}; git stash pop"])
+              ran=[f"go test -vet=off -count=1 {tags} ./...  (in the worktree, change applied)", f"git apply -R patch.diff; go test -run '{runpat}' {' '.join(pk)}; git apply patch.diff"])
     json.dump(meta, open(f'{out}/meta.json','w'), indent=1)
     print(json.dumps(meta['verified']))
 def run(sid, check, tier='quick'):
